@@ -12,7 +12,7 @@ RULE = (
     "for retry exhaustion; the dt-controller reference model is replayed on the observed history; non-trivial = at least one refusal "
     "or one change of the proposed dt; distinct = scenario digests"
 )
-LIFECYCLES = {}  # shared object life cycles (scen.add_lifecycles) with their default rates
+LIFECYCLES = {"p_prior": 0.07}  # shared object life cycles (scen.add_lifecycles) with their default rates
 BUDGET = {"quick": {"runs": 700, "chunk": 10}, "thorough": {"runs": 120000, "chunk": 20}}
 COMPONENTS = {"real": ["TDGLSolver.update / adaptive_euler_step / dt controller", "Runner"], "stub": ["wall clock", "refusals injected at the solve_for_psi_squared seam (buggify)"]}
 
@@ -41,6 +41,27 @@ def gen(seed, idx, tier):
     elif mode == "burst":
         # more refusals than the retry budget allows: exhaustion must raise
         faults.append({"kind": "refuse", "at": {"stage": "S", "step": rnd.randint(0, max(0, steps - 1)), "attempts": list(range(o["max_solve_retries"] + 3)), "iter": 0}})
+    if adaptive and rnd.random() < 0.12:
+        # a very small first step and a nearly static state: the documented rule floors the windowed
+        # mean at 1e-10, so the proposal is min(1/2 (dt + dt_init 1e10), dt_max) = dt_max whenever
+        # dt_max / dt_init < 5e9 (weak or absent drive, |psi|^2 changes by far less than 1e-6 per step)
+        o["dt_init"] = rnd.choice([1e-9, 1e-8, 1e-7])
+        o["dt_max"] = rnd.choice([0.01, 0.05, 0.1])
+        o["adaptive_window"] = rnd.choice([1, 2, 3, 5])
+        o["solve_time"] = scen.r3(o["dt_max"] * rnd.randint(3, 12))
+        if o.get("skip_time"):
+            o["skip_time"] = scen.r3(o["dt_max"] * rnd.randint(1, 2))
+        scn["drive"]["currents"] = None
+        scn["drive"]["epsilon"] = None
+        f = scn["drive"]["field"]
+        if rnd.random() < 0.5:
+            scn["drive"]["field"] = {"kind": "zero"}
+        elif "B" in f:
+            f["B"] = f["B"] * 1e-4
+        if scn["device"]["terminals"]:
+            o["terminal_psi"] = rnd.choice([None, 1.0])
+        faults = []
+        mode = "tiny-dt-init"
     scn["faults"] = faults
     scn["meta"]["mode"] = mode
     if rnd.random() < 0.2 and not o["skip_time"]:
